@@ -259,7 +259,8 @@ func RunHistory(h *History, prof *Profile, rng *rand.Rand, opt Options) *Outcome
 // Benign failure classes leave the lake usable; a history continues after them.
 func Benign(key string) bool {
 	return strings.HasPrefix(key, "C14:this-key:") || strings.HasPrefix(key, "C14:scan:tie-order:") ||
-		key == "C15:branch:empty-branch-reads-main" || key == "C15:merge:delete-of-merged-object"
+		key == "C15:branch:empty-branch-reads-main" || key == "C15:merge:delete-of-merged-object" ||
+		key == "C14:lister-order:empty-bytes-key"
 }
 
 func trimOther(s string) string {
@@ -473,6 +474,18 @@ func checkStep(r *Real, t *Table, ref *refState, op Op, obs, prev *StepObs, tips
 				break
 			}
 		}
+		// the lister (`:objects`) hands the objects over ordered by range start
+		if what, emptyBytes := listerCheck(t, r.Cfg, nb); what != "" && r.Cfg.Key != "this" {
+			key := fmt.Sprintf("%s:lister-order", P)
+			if emptyBytes {
+				// range starts whose zcode bytes are both empty (int64 0, "", null): lessFunc
+				// takes them for byte-equal and is not asymmetric
+				key = "C14:lister-order:empty-bytes-key"
+			}
+			if P == "C14" || !emptyBytes {
+				fail("oracle", key, fmt.Sprintf("after %s :objects of b%d: %s", op, nb.Name, what), step)
+			}
+		}
 		// object metadata and file contents
 		var all []int
 		for _, o := range nb.Objs {
@@ -626,6 +639,31 @@ func intersectMs(have, set []int) []int {
 		}
 	}
 	return out
+}
+
+// listerCheck: in :objects order the range starts (min ascending / max descending) never
+// decrease.  (The order among objects with the same start is not checked: lessFunc compares
+// range ends only when their BYTES differ, and e.g. the int64 0 and null both have empty
+// bytes, so such objects come in Go map order.)
+func listerCheck(t *Table, cfg Cfg, b *BranchObs) (what string, emptyBytes bool) {
+	byID := map[int]*ObjObs{}
+	for i := range b.Objs {
+		byID[b.Objs[i].ID] = &b.Objs[i]
+	}
+	for i := 1; i < len(b.Lister); i++ {
+		x, y := byID[b.Lister[i-1]], byID[b.Lister[i]]
+		xf, yf := x.Min, y.Min
+		sgn := 1
+		if cfg.Desc {
+			xf, yf = x.Max, y.Max
+			sgn = -1
+		}
+		if sgn*KeyCmp(xf, yf) > 0 {
+			empty := func(k string) bool { return k == "i0" || k == "s-" || k == "n" }
+			return fmt.Sprintf("object %d [%s,%s] is listed before object %d [%s,%s]", x.ID, x.Min, x.Max, y.ID, y.Min, y.Max), empty(xf) && empty(yf)
+		}
+	}
+	return "", false
 }
 
 // seekCheck: the seek index entries partition the object's values (val_off / val_cnt chain
